@@ -33,7 +33,7 @@ GEN_FILES = ["GenConc"]
 DRIVERS = ["conc"]
 THEOREMS = ["C11_serial_if_atomic", "C11_serial_is_sequential", "C11_atomic_loses_nothing",
             "C11_locked_loses_nothing", "C11_lost_update_refuted", "C11_notes_lost_refuted",
-            "C11_commit_loses_checkpoint_refuted", "C11_stale_base_refuted", "C11_no_phantoms", "C11_no_duplicates",
+            "C11_commit_loses_checkpoint_refuted", "C11_stale_base_refuted", "C11_torn_blob_refuted", "C11_no_phantoms", "C11_no_duplicates",
             "C11_worktree_isolated", "C11_checkpoints_in_two_worktrees", "C11_storage_paths_distinct",
             "C11_known_exact", "C11_two_appends_exact", "C11_nonvacuous", "C11_two_worktrees_example",
             "C11_paths_example"]
@@ -76,6 +76,9 @@ K3 = "C11-K3 concurrent `git notes add` on the shared refs/notes/ai (no compare-
 
 K4 = ("C11-K4 a checkpoint whose base commit was resolved before a concurrent commit of the same worktree writes to the "
       "retired working log of the old base: the reported edit is lost")
+
+K5 = ("C11-K5 blob store rewritten in place: a concurrent checkpoint reads a tracked file's previous version torn/empty "
+      "and claims the whole file for its own session")
 
 TOOL = "toolx"
 W0, B0 = 0, 7          # model names of the worktree / base commit used in controlled runs
@@ -263,6 +266,14 @@ def sc_checkpoints(args):
         if err:
             return {"idx": idx, "error": err + " " + str(rcs)}
         final = read_cps(log_path)
+        # the payload is a parameter of the model's programs: for a checkpoint that is in the final log take the
+        # files it really carries (a deviation from the prediction is judged by the oracle, not by the tie)
+        predicted = {k: [f for f, _ in payload[k]] for k in range(n)}
+        claimed = {}
+        for cid, es in final or []:
+            if 1 <= cid <= n:
+                claimed[cid - 1] = [f for f, _ in es]
+                payload[cid - 1] = [[f, 1] for f, _ in es]
         # the model's schedule: one entry per model step
         msched = []
         cnt = [0] * n
@@ -274,7 +285,9 @@ def sc_checkpoints(args):
         progs = " ".join(f"({mk} {W0} {B0} {k + 1} ({' '.join(f'({f} {c})' for f, c in payload[k])}))" for k in range(n))
         body = f"({progs}) ({' '.join(map(str, msched))}) (((cp {W0} {B0}) {sx_cps(init)}))"
         return {"idx": idx, "kind": kind, "n": n, "sched": sched, "init": init, "final": final, "model_in": body,
-                "rcs": [r[0] for r in rcs], "log": None}
+                "rcs": [r[0] for r in rcs], "with_init": with_init,
+                "payload_deviation": {str(k): {"claimed": v, "predicted": predicted[k]} for k, v in claimed.items()
+                                      if sorted(v) != sorted(predicted[k])}}
     finally:
         shutil.rmtree(sim.base, ignore_errors=True)
 
@@ -391,6 +404,45 @@ def sc_commit_vs_checkpoint(args):
                 f"(((cp {W0} {B0}) {sx_cps(init)}))")
         return {"idx": idx, "sched": sched, "init": init, "retired_log": old, "note1_ok": note1 == want1,
                 "edit_present": note2 == want2, "note2": note2, "model_in": body, "rcs": [r[0] for r in rcs]}
+    finally:
+        shutil.rmtree(sim.base, ignore_errors=True)
+
+
+# ------------------------------------------------------------------ scenario: the blob store under concurrent checkpoints
+def sc_torn_blob(args):
+    """a tracked file (edited by session s9, checkpointed) that nobody touches afterwards; n agents edit n other files
+    and checkpoint at once.  The journal appends are SERIALISED by the controller (no read..write windows overlap:
+    outside Known_C11), everything before them runs free.  mode 'seq': the processes run one after another (control).
+    Oracle: every checkpoint carries exactly the file its agent edited."""
+    base, idx, n, mode = args
+    sim = Sim(base, f"tb{idx}")
+    try:
+        sim.init({f"f{k}.txt": f"base {k}\n" for k in range(n + 1)})
+        head = sim.head()
+        # a sizeable bystander file: rewriting its blob takes long enough to be observed half-way
+        sim.write(f"f{n}.txt", f"base {n}\n" + "".join(f"earlier ai {i}\n" for i in range(60000)))
+        rc, _, err = sim.checkpoint_ai("s9", [f"f{n}.txt"])
+        if rc != 0:
+            return {"idx": idx, "error": "init checkpoint failed: " + err[-200:]}
+        for k in range(n):
+            sim.write(f"f{k}.txt", f"base {k}\nai line {k}\n")
+        if mode == "seq":
+            for k in range(n):
+                sim.checkpoint_ai(f"s{k + 1}", [f"f{k}.txt"])
+            err = None
+        else:
+            procs = [Proc(sim, f"p{k}", ckpt_argv(sim, f"s{k + 1}", [f"f{k}.txt"]), sim.repo, ["cp-read", "cp-write"])
+                     for k in range(n)]
+            err = drive(procs, [t for k in range(n) for t in (k, k)])
+            rcs = [pr.finish() for pr in procs]
+        if err:
+            return {"idx": idx, "error": err}
+        cps = read_cps(os.path.join(sim.repo, ".git", "ai", "working_logs", head, "checkpoints.jsonl")) or []
+        ids = [c[0] for c in cps]
+        wrong = [{"session": c[0], "files": [f for f, _ in c[1]]} for c in cps
+                 if 1 <= c[0] <= n and [f for f, _ in c[1]] != [c[0] - 1]]
+        return {"idx": idx, "mode": mode, "n": n, "ids": ids, "missing": sorted(set(range(1, n + 1)) - set(ids)),
+                "wrong_payload": wrong, "bystander_file": n}
     finally:
         shutil.rmtree(sim.base, ignore_errors=True)
 
@@ -629,7 +681,7 @@ def run(ctx):
         items.append((base, len(items), 2, "append", sch, 0))
         items.append((base, len(items), 2, "append", sch, 2))
     s2r = interleavings([3, 3])
-    for sch in (s2r if not quick else s2r):
+    for sch in s2r:
         items.append((base, len(items), 2, "run", sch, 1))
     s3 = interleavings([2, 2, 2])
     pick3 = s3 if not quick else r.shuffle(s3)[:30]
@@ -637,7 +689,7 @@ def run(ctx):
         items.append((base, len(items), 3, "append", sch, r.below(3)))
     if not quick:
         s3r = interleavings([3, 3, 3])
-        for sch in r.shuffle(s3r)[:300]:
+        for sch in r.shuffle(s3r)[:900]:
             items.append((base, len(items), 3, "run", sch, r.below(2)))
         # truncated schedules (a thread that never gets to write)
         for sch in r.shuffle(s3)[:30]:
@@ -649,6 +701,7 @@ def run(ctx):
     if ctx.model_ok:
         model = C.run_cases(C.driver_path("conc"), "c11-run", [(str(x["idx"]), x["model_in"]) for x in good])
     mism, n_known_sched, n_lost_sched, k1_witness = [], 0, 0, None
+    k5_hits = []
     for x in good:
         evaluations += 1
         distinct.add(("ck", x["kind"], x["n"], tuple(x["sched"]), str(x["init"])))
@@ -684,6 +737,14 @@ def run(ctx):
             want = m["cp"].get((W0, B0))
             if want != final:
                 mism.append(f"schedule {x['sched']} ({x['kind']}, n={x['n']}): real {final} model {want}")
+        for k, dv in x.get("payload_deviation", {}).items():
+            extra = set(dv["claimed"]) - set(dv["predicted"])
+            tracked = {f for c in x["init"] for f, _ in c[1]}
+            if extra and extra <= tracked and not (set(dv["predicted"]) - set(dv["claimed"])):
+                k5_hits.append({"schedule": x["sched"], "session": int(k) + 1, **dv})   # claims a tracked file: torn blob
+            else:
+                violations.append((f"checkpoint of session {int(k) + 1} carries files {dv['claimed']}, expected {dv['predicted']} "
+                                   f"(schedule {x['sched']})", {"kind": "controlled-checkpoints", **x}))
         if len(cov_samples) < 3:
             cov_samples.append({"case": "controlled checkpoints", "schedule": x["sched"], "points": CK_POINTS[x["kind"]],
                                 "initial": x["init"], "final_real": final,
@@ -783,6 +844,35 @@ def run(ctx):
         known.append(K1)
     if k4_witness:
         known.append(K4)
+
+    # ---------------------------------------------------------------- oracle: payload intact under concurrency (blob store)
+    plan = [("seq", 4)] * (1 if quick else 4) + [("conc", 8)] * (14 if quick else 80)
+    res = C.parallel_map(sc_torn_blob, [(base, i, n, mode) for i, (mode, n) in enumerate(plan)], workers=3)
+    k5_witness, tb_rounds_bad = None, 0
+    for x in res:
+        if "error" in x:
+            violations.append(("engine error: " + x["error"][-300:], x))
+            continue
+        evaluations += 1
+        dist["blob-store-" + x["mode"]] = dist.get("blob-store-" + x["mode"], 0) + 1
+        distinct.add(("tb", x["mode"], x["idx"]))
+        if x["missing"]:
+            violations.append((f"checkpoints lost although the journal appends were serialised: {x['missing']}",
+                               {"kind": "blob-store", **x}))
+        for wp in x["wrong_payload"]:
+            extra = set(wp["files"]) - {wp["session"] - 1}
+            if x["mode"] == "conc" and extra == {x["bystander_file"]} and (wp["session"] - 1) in wp["files"]:
+                tb_rounds_bad += 1
+                k5_witness = k5_witness or {"processes": x["n"], "journal_appends": "serialised (outside Known_C11)",
+                                            "session": wp["session"], "claims_files": wp["files"],
+                                            "bystander_file": x["bystander_file"]}
+            else:
+                violations.append((f"checkpoint of session {wp['session']} carries files {wp['files']} ({x['mode']})",
+                                   {"kind": "blob-store", **x}))
+    if k5_hits and not k5_witness:
+        k5_witness = k5_hits[0]
+    if k5_witness:
+        known.append(K5)
 
     # ---------------------------------------------------------------- oracle: free-running checkpoints in one worktree
     rounds = 8 if quick else 60
@@ -891,7 +981,8 @@ def run(ctx):
         "stress_rounds_with_loss": stress_lost,
         "commit_outcomes": outcomes,
         "known_witnesses": {"C11-K1": k1_witness, "C11-K1(post_commit refresh)": k1b_witness, "C11-K2": k2_witness,
-                            "C11-K3": k3_witness, "C11-K4": k4_witness},
+                            "C11-K3": k3_witness, "C11-K4": k4_witness, "C11-K5": k5_witness},
+        "blob_store_rounds_with_wrong_payload": tb_rounds_bad,
     }
     return {"obligations": obligations, "violations": violations, "known_seen": known,
             "searched": f"{evaluations} scenarios with real concurrent processes: all interleavings of the sync points of two "
